@@ -1,6 +1,6 @@
 (* C15/Registry.v — entry points used by the correspondence check *)
 From Coq Require Import ZArith List String.
-From FV Require Import Base.Ser Base.Res C15.Model C15.ModelDeltas C15.ModelPoints.
+From FV Require Import Base.Ser Base.Res C15.Model C15.ModelDeltas C15.ModelPoints C15.ModelTags.
 Import ListNotations.
 Open Scope string_scope.
 
@@ -20,6 +20,8 @@ Definition reg : registry := [
   ("compileDeltaValues", run1 compileDeltaValues);
   ("decompileDeltas", run2 decompileDeltas);
   ("compilePoints", run1 compilePoints);
-  ("decompilePoints", run1 decompilePoints)
+  ("decompilePoints", run1 decompilePoints);
+  ("tagToIdentifier", run1 tagToIdentifier);
+  ("identifierToTag", run1 identifierToTag)
 ].
 Definition fv_entry := dispatch reg.
